@@ -241,3 +241,59 @@ package signing
 //@   ensures [C06.the-inverse-handed-to-round-5-exists] result == nil ==> (round.temp.thetaInverse != nil && 0 < val(round.temp.thetaInverse) && val(round.temp.thetaInverse) < secpN)
 //@   ensures [C01.nothing-sent-on-error] result != nil ==> sent(old(round.out)) == old(sent(round.out))
 //@   loop 0 invariant round.started && thetaInverse != nil && val(thetaInverse) >= 0 && modN != nil && val(modN) == secpN && sent(round.out) == old(sent(round.out))
+
+// ----- message decoders used by rounds 5-9 -----
+//@ func (*SignRound1Message2).UnmarshalCommitment
+//@   props C06 C16
+//@   requires m != nil
+//@   ensures result != nil && fresh(result) && val(result) >= 0
+//@ func (*SignRound5Message).UnmarshalCommitment
+//@   props C06 C16
+//@   requires m != nil
+//@   ensures result != nil && fresh(result) && val(result) >= 0
+//@ func (*SignRound7Message).UnmarshalCommitment
+//@   props C06 C16
+//@   requires m != nil
+//@   ensures result != nil && fresh(result) && val(result) >= 0
+//@ func (*SignRound4Message).UnmarshalDeCommitment
+//@   props C06 C16
+//@   requires m != nil
+//@   ensures fresh(result) && len(result) == len(m.DeCommitment) && (forall k in 0..len(result) :: (result[k] != nil && val(result[k]) >= 0))
+//@ func (*SignRound6Message).UnmarshalDeCommitment
+//@   props C06 C16
+//@   requires m != nil
+//@   ensures fresh(result) && len(result) == len(m.DeCommitment) && (forall k in 0..len(result) :: (result[k] != nil && val(result[k]) >= 0))
+//@ func (*SignRound8Message).UnmarshalDeCommitment
+//@   props C06 C16
+//@   requires m != nil
+//@   ensures fresh(result) && len(result) == len(m.DeCommitment) && (forall k in 0..len(result) :: (result[k] != nil && val(result[k]) >= 0))
+//@ func (*SignRound4Message).UnmarshalZKProof
+//@   props C06 C17
+//@   requires m != nil && !isnil(ec)
+//@   ensures result1 != nil ==> result0 == nil
+//@   ensures [C17.proof-commitment-is-on-the-curve] result1 == nil ==> (result0 != nil && fresh(result0) && result0.Alpha != nil && validPoint(result0.Alpha) && result0.Alpha.curve == ec && result0.T != nil && val(result0.T) >= 0)
+//@ func (*SignRound6Message).UnmarshalZKProof
+//@   props C06 C17
+//@   requires m != nil && !isnil(ec)
+//@   ensures result1 != nil ==> result0 == nil
+//@   ensures [C17.proof-commitment-is-on-the-curve] result1 == nil ==> (result0 != nil && fresh(result0) && result0.Alpha != nil && validPoint(result0.Alpha) && result0.Alpha.curve == ec && result0.T != nil && val(result0.T) >= 0)
+//@ func (*SignRound6Message).UnmarshalZKVProof
+//@   props C06 C17
+//@   requires m != nil && !isnil(ec)
+//@   ensures result1 != nil ==> result0 == nil
+//@   ensures [C17.proof-commitment-is-on-the-curve] result1 == nil ==> (result0 != nil && fresh(result0) && result0.Alpha != nil && validPoint(result0.Alpha) && result0.Alpha.curve == ec && result0.T != nil && val(result0.T) >= 0 && result0.U != nil && val(result0.U) >= 0)
+
+// round_5.go: open every peer's Gamma commitment, check its Schnorr proof, form R.
+//@ define sg1m2slot(m) = (!isnil(m) && istype(msgcontent(m), "*ecdsa/signing.SignRound1Message2") && cast(msgcontent(m), "*ecdsa/signing.SignRound1Message2") != nil)
+//@ define sg4slot(m) = (!isnil(m) && istype(msgcontent(m), "*ecdsa/signing.SignRound4Message") && cast(msgcontent(m), "*ecdsa/signing.SignRound4Message") != nil && len(cast(msgcontent(m), "*ecdsa/signing.SignRound4Message").DeCommitment) <= 8192)
+//@ func (*round5).Start
+//@   props C06 C05 C01 C20
+//@   requires round != nil && round.round4 != nil && round.round4.round3 != nil && round.round4.round3.round2 != nil && round.round4.round3.round2.round1 != nil && round.round4.round3.round2.round1.base != nil && ecSignWF(round)
+//@   requires [rounds-1-and-4-complete] forall j in 0..sgN(round) :: (j != sgI(round) ==> (sg1m2slot(round.temp.signRound1Message2s[j]) && sg4slot(round.temp.signRound4Messages[j])))
+//@   requires [own-values] round.temp.pointGamma != nil && validPoint(round.temp.pointGamma) && round.temp.pointGamma.curve == round.Parameters.ec && round.temp.thetaInverse != nil && 0 < val(round.temp.thetaInverse) && val(round.temp.thetaInverse) < secpN && round.temp.m != nil && round.temp.k != nil && round.temp.sigma != nil && val(round.temp.m) >= 0 && val(round.temp.k) >= 0 && val(round.temp.sigma) >= 0 && len(round.temp.ssid) <= 4096
+//@   site (*crypto.ECPoint).ScalarMult#1 assume : [ND-own-signature-share-nonzero] val($arg1) % secpN != 0
+//@   note ND-own-signature-share-nonzero: s_i = m*k_i + r*sigma_i mod q is zero with probability 2^-256 and cannot be steered by a peer (it would need k_i); R.ScalarMult(0) would panic
+//@   modifies round.number, round.started, round.ok[*], round.temp.w, round.temp.k, round.temp.li, round.temp.bigAi, round.temp.bigVi, round.temp.roi, round.temp.DPower, round.temp.si, round.temp.rx, round.temp.ry, round.temp.bigR, round.temp.signRound5Messages[*], sent(round.out)
+//@   ensures [C05.a-failing-opening-or-proof-blames-exactly-its-sender] (result != nil && !old(round.started) && len(result.culprits) > 0) ==> (len(result.culprits) == 1 && peerOf(round, result.culprits[0]))
+//@   ensures [C01.nothing-sent-on-error] result != nil ==> sent(old(round.out)) == old(sent(round.out))
+//@   loop 0 invariant round.started && R != nil && validPoint(R) && R.curve == round.Parameters.ec && sent(round.out) == old(sent(round.out))
